@@ -504,15 +504,42 @@ theorem helpers_allclose_atol {β : Type} [Field β] [LinearOrder β] [IsStrictO
     (p.unit.dims ≠ t.unit.dims → allcloseScalar (.qty p) (.qty q) rtol (some (.qty t)) = .error .valueError) :=
   allcloseScalar_atol p q t hp hpos rtol hd
 
-/-- **`allclose` on quantity arrays** (equal length; also a scalar `a` broadcast against an array `b`): when no pair raises, the answer is
-    True iff every pair is close — so by `helpers_allclose_unit_independent` / `helpers_allclose_atol` it is the plain element-wise
-    test on the physical values.  An `UncertainQuantity` argument is replaced by its nominal quantity first (`allcloseU`, by definition). -/
+/-- **`allclose` on quantity arrays, with NumPy broadcasting of `a`, `b` and an array `atol` to one common shape** (after fixes 32ccfa8, e80401e, dadaf52).  Shapes that cannot be broadcast, and operands of different dimension, give False
+    (`allcloseTriples = none`).  Otherwise the comparison runs over EVERY triple `(a_i, b_i, atol_i)` of the broadcast shape (`allcloseTriples`): when no pair
+    raises, the answer is True iff every triple is close — by `helpers_allclose_unit_independent` / `helpers_allclose_atol` the plain
+    element-wise test `|a_i − b_i| ≤ |a_i|·rtol (+ atol_i)` on the physical values.  An `UncertainQuantity` argument is replaced by its
+    nominal quantity first (`allcloseU`, by definition). -/
 theorem helpers_allclose_arrays {β : Type} [Field β] [LinearOrder β] [IsStrictOrderedRing β]
-    (rtol : β) (atol : Option (PyVal β)) (a b : List (PyVal β))
-    (hok : List.Forall₂ (fun x y => ∃ r, allcloseScalar x y rtol atol = .ok r) a b) :
-    ∃ r, allcloseArrays false a b rtol atol = .ok r ∧
-      (r = true ↔ List.Forall₂ (fun x y => allcloseScalar x y rtol atol = .ok true) a b) :=
-  allcloseArrays_spec rtol atol a b hok
+    (rtol : β) (a b : ArrArg β) (atol : Option (ArrArg β)) :
+    (allcloseTriples a b atol = none → allcloseArrays a b rtol atol = .ok false) ∧
+    (∀ ts, allcloseTriples a b atol = some (.ok ts) →
+      (∀ t ∈ ts, ∃ r, allcloseScalar t.1 t.2.1 rtol t.2.2 = .ok r) →
+      ∃ r, allcloseArrays a b rtol atol = .ok r ∧ (r = true ↔ ∀ t ∈ ts, allcloseScalar t.1 t.2.1 rtol t.2.2 = .ok true)) :=
+  allcloseArrays_spec rtol a b atol
+
+/-- **The broadcast shape of `allclose`**: arrays of equal length are paired element-wise; a length-1 array or a scalar is paired with
+    EVERY element of the other operand (the defect fixed by 32ccfa8 compared only the first pair when `a` was the short one). -/
+theorem helpers_allclose_broadcast_shape {β : Type} [Field β] [LinearOrder β] [IsStrictOrderedRing β]
+    (x : PyVal β) (l : List (PyVal β)) (hl : l.length ≠ 1) (hd : ∀ y ∈ l, y.dims = x.dims) :
+    allcloseTriples (.arr l) (.arr l) none = some (.ok (l.zip (l.zip (List.replicate l.length none)))) ∧
+    allcloseTriples (.arr [x]) (.arr l) none = some (.ok ((List.replicate l.length x).zip (l.zip (List.replicate l.length none)))) ∧
+    allcloseTriples (.scalar x) (.arr l) none = some (.ok ((List.replicate l.length x).zip (l.zip (List.replicate l.length none)))) ∧
+    allcloseTriples (.arr l) (.arr [x]) none = some (.ok (l.zip ((List.replicate l.length x).zip (List.replicate l.length none)))) :=
+  allcloseTriples_shapes x l hl hd
+
+/-- the fixed input: `[1 km]` against `[1000 m, 5000 m, 9000 m]` is NOT close (all three pairs are compared) -/
+example :
+    let km (x : ℚ) : PyVal ℚ := .qty ⟨x, ⟨1000, Dims.basis 0⟩⟩
+    let m (x : ℚ) : PyVal ℚ := .qty ⟨x, ⟨1, Dims.basis 0⟩⟩
+    allcloseArrays (.arr [km 1]) (.arr [m 1000, m 5000, m 9000]) (1/100000000) none = .ok false ∧
+    allcloseArrays (.arr [km 1]) (.arr [m 1000, m 1000, m 1000]) (1/100000000) none = .ok true ∧
+    allcloseArrays (.arr [km 1, km 2]) (.arr [m 1000, m 2000, m 3000]) (1/100000000) none = .ok false ∧
+    -- an array atol is broadcast too: longer than both operands (fix dadaf52), longer than `a` (fix e80401e), two scalars
+    allcloseArrays (.arr [km 1]) (.arr [m 1001]) (1/100000000) (some (.arr [m 2, m (1/2)])) = .ok false ∧
+    allcloseArrays (.scalar (km 1)) (.arr [m 1001, m 1001]) (1/100000000) (some (.arr [m 2, m 2])) = .ok true ∧
+    allcloseArrays (.scalar (km 1)) (.scalar (m 1001)) (1/100000000) (some (.arr [m 2, m 5])) = .ok true ∧
+    allcloseArrays (.arr [km 1, km 2]) (.arr [m 1001]) (1/100000000) (some (.arr [m 2, m 2, m 2])) = .error .valueError := by
+  decide +kernel
 
 /-- **`compare_equality`** on two quantities is physical equality: True iff same dimension and same SI value (different
     dimensions → False, no exception); on two plain numbers it is `==`.  (Quantity against plain number: see the quirk witness.) -/
